@@ -12,7 +12,7 @@ ID = "C05"
 META = {
     "technique": "runtime monitoring: a recording scheduler logs its arguments and every Interface query at each invocation; invocation periods are checked against a 6-line reference model, observations against ground truth recomputed from the recorded trajectory and the case descriptor; a mutating twin run checks isolation",
     "design_ref": "DESIGN.md section 6 C05",
-    "level_text": "exploration: generated event histories x max_recompute in {None,1,2,5} x scheduler programs (scripted, uncontrolled, sorted, each with a recording and a mutating wrapper); every invocation is judged on time, datetime, active set and delivered energy, previous rates/peak/pilots and the infrastructure description; every scenario is run twice (recording vs scribbling over everything handed or queried) and the trajectories and the network description must be identical; scheduler exceptions followed by run() again; schedulers attached through update_scheduler after a placeholder (also after JSON); derived session quantities (remaining demand, remaining time, arrival offset); a leg on the contrib StochasticNetwork (more cars than spaces, early departure) judged against a ledger of every EV.charge call",
+    "level_text": "exploration: generated event histories x max_recompute in {None,1,2,5} x scheduler programs (scripted, uncontrolled, sorted, each with a recording and a mutating wrapper); every invocation is judged on time, datetime, active set and delivered energy, previous rates/peak/pilots and the infrastructure description; every scenario is run twice (recording vs scribbling over everything handed or queried) and the trajectories and the network description must be identical; scheduler exceptions followed by run() again; schedulers attached through update_scheduler after a placeholder (also after JSON); derived session quantities (remaining demand, remaining time, arrival offset); a leg on the contrib StochasticNetwork (more cars than spaces, early departure) judged against a ledger of every EV.charge call; batteries with less room than the request",
     "level_note": "ground truth for 'delivered energy' and 'previous rates' is the recorded trajectory up to t-1 (C02 ties that trajectory to the EV/battery ledgers); sessions within 1e-9 kWh of the 1e-3 kWh activity cut are not judged; the mutating twin decides on clean data first, then mutates",
 }
 LEVEL = "exploration"
